@@ -408,17 +408,22 @@ def isVarWord : Str → Bool
 
 /-- `DoitMain.process_args` on the words after the loader options (command name included): every `name=value` word is
     removed and remembered for `doit.get_var` — wherever it stands, also right after an option that takes a value
-    (`--val a=b` loses its value) and after `--`.  An empty word is `arg[0]` on `''`: IndexError. -/
-def stripVars : List Str → Except Err (List Str)
+    (`--val a=b` loses its value) and after `--`.  An empty word stays an ordinary word (`arg[:1]`, since
+    `fix: an empty word on the command line is reported as an error instead of a traceback`); `pinned := true` keeps
+    the earlier `arg[0]` on `''`: IndexError. -/
+def stripVarsP (pinned : Bool) : List Str → Except Err (List Str)
   | [] => .ok []
-  | [] :: _ => .error .crash
-  | (c :: r) :: rest =>
-    match stripVars rest with
+  | a :: rest =>
+    match stripVarsP pinned rest with
     | .error e => .error e
-    | .ok out => if isVarWord (c :: r) then .ok out else .ok ((c :: r) :: out)
+    | .ok out =>
+      if a = [] then (if pinned then .error .crash else .ok (a :: out))
+      else if isVarWord a then .ok out else .ok (a :: out)
 
-/-- the guard under which the words reach the parsers unchanged: no empty word, no `name=value` word -/
-def NoVarWords (argv : List Str) : Bool := argv.all fun a => a != [] && !isVarWord a
+abbrev stripVars := stripVarsP false
+
+/-- the guard under which the words reach the parsers unchanged: no `name=value` word -/
+def NoVarWords (argv : List Str) : Bool := argv.all fun a => !isVarWord a
 
 /-- what `DoitMain.run` makes of the resolution: the command's return, `ERROR: …` with exit code 3, or an uncaught
     exception (traceback, exit status 1) -/
